@@ -15,7 +15,7 @@ MODS = (GM, UT, IRF, "glotaran.parameter.parameter")
 DROPS = ("numba @jit kernels are executed through their .py_func (nopython compilation and the parallel schedule dropped); nb.prange is a plain range; the ctypes erf/erfcx are rebound to the symbolic erf/erfcx",)
 TRUSTED = (
     "erf, erfcx, exp uninterpreted with ground axioms: erfcx z = exp(z^2)(1 - erf z), erf(-z) = -erf z, exp a · exp b = exp(a+b)",
-    "mathematical fact (stated, sampled in native replay): 1/2·exp(α(α-2β))(1+erf(β-α)) with α = kσ/√2, β = (t-μ)/(σ√2) is the convolution of exp(-kt)H(t) with the area-normalised Gaussian",
+    "that 1/2·exp(α(α-2β))(1+erf(β-α)) with α = kσ/√2, β = (t-μ)/(σ√2) is the convolution integral of exp(-kt)H(t) with the area-normalised Gaussian is the Lean theorem PyVC.convolution_closed_form (lemmas/Convolution.lean: erf defined by its integral, σ > 0, all k, μ, t; re-checked every run); scipy's erf / erfcx are trusted to be that function",
 )
 
 
@@ -389,3 +389,32 @@ class ImplementationPerIndex(Contract):
             got = out["M"][i, 0, 0] if out["dep"] else out["M"][0, 0]
             cells.append(any_shape(got, 0, shapes, (lambda x: x / tot) if case["normalize"] else (lambda x: x)))
         yield "matrix_at_index_i_is_kernel_with_effective_centre_and_width_of_index_i", L.and_(*cells)
+
+
+class ConvolutionLemma(Contract):
+    """`convolution_closed_form` (Lean 4 + Mathlib, re-checked by `lean` on every run): for σ > 0 and all k, μ, t
+        ∫_{-∞}^{t} exp(-k (t - s)) · exp(-(s - μ)²/(2σ²)) / (σ √(2π)) ds = 1/2 · exp(α(α - 2β)) · (1 + erf(β - α)),
+    erf being defined by its integral - the step from "the columns are the closed form" (discharged on the kernels) to
+    "each decay column equals the convolution of exp(-k t) with the area-normalised Gaussian".  `erf_neg`: erf is odd
+    (a ground axiom of the z3 side)."""
+
+    prop = "C05"
+    name = "ConvolutionLemma"
+    lemma_files = (__import__("pathlib").Path(__file__).resolve().parent.parent / "lemmas" / "Convolution.lean",)
+    target = None
+    strength = "U"
+    trusted = ("Lean 4.33 kernel and Mathlib (Lebesgue integral, Real.exp, Real.sqrt, fundamental theorem of calculus on (-∞, a]); axioms propext, Classical.choice, Quot.sound",)
+
+    def cases(self, tier):
+        return iter(())
+
+    def static_obligations(self, tier):
+        from pyvc.lean import check_lemmas
+
+        return check_lemmas(
+            self.lemma_files[0],
+            {
+                "PyVC.convolution_closed_form": "lemma_closed_form_is_the_convolution_with_the_area_normalised_gaussian",
+                "PyVC.erf_neg": "lemma_erf_is_odd",
+            },
+        )
